@@ -21,7 +21,7 @@ type histOp struct {
 func runC01(r *ev.Run) {
 	r.Rule = "case = (dim, metric, generated Add/Remove/Flush history over distinct non-zero ids); after every mutating op 2-4 queries, each answered once completely " +
 		"(checked against the float64 reference model: exactly the live ids, true distances, ascending) and 4-6 times restricted (k over Z, threshold incl. bit-exact reported scores, " +
-		"id restrictions incl. removed/never-added ids; decided exactly against the complete listing); non-trivial = history has >=1 removal and >=1 flush and >=1 probe returned results; distinct by history digest"
+		"id restrictions incl. removed/never-added ids; decided exactly against the complete listing); non-trivial = history has >=1 removal and >=1 flush and >=1 probe returned results; distinct by history digest Since the seed waves: large indexes (255..2050 stored vectors), re-adds of removed ids, rejected adds inside the history, operations on the empty index first, double Flush, a held search object re-configured and re-executed across index changes, re-executed search objects, WithCutoff variants, restrictions of only removed ids, extreme k, almost-unit vectors, every vector handed over as a window into a larger buffer."
 	r.Assumptions = []string{"oracle = brute-force float64 k-NN over the model's live set; tolerance scaled to float32 accumulation error",
 		"threshold/k/id-restriction probes are decided bit-exactly against the implementation's own complete listing for the same query"}
 	n := r.Pick(300, 9000)
